@@ -167,6 +167,7 @@ func (f *FS) PowerLossImage(dst string, ev *Event) error {
 	if s == nil {
 		return nil
 	}
+	defer RestampReal(dst, f.now())
 	if s.DataOnly {
 		var ps []string
 		for p := range s.live {
